@@ -12,6 +12,7 @@ mod c04;
 mod c05;
 mod c06;
 mod c07;
+mod c08;
 mod c09;
 mod c12;
 mod c14;
@@ -67,6 +68,9 @@ fn main() {
         "c15_guards" => c15::guards(&v),
         "c07_journal_parse" => c07::journal_parse(&v),
         "c07_state_read" => c07::state_read(&v),
+        "c07_post_hook_journal" => c07::post_hook_journal(&v),
+        "c07_pre_commit_refusal" => c07::pre_commit_refusal(&v),
+        "c08_policy" => c08::policy(&v),
         "c09_lookup" => c09::lookup(&v),
         "c09_overlay" => c09::overlay(&v),
         "c09_blame" => c09::blame(&v),
